@@ -53,10 +53,10 @@ package syncutil
 //@   call LimitRegion requires [C04:one-region-per-item-on-the-shared-limiter] args.limiter == limiter && args.ctx == egCtx
 //@   loop 0 invariant [objects] ctx != nil && cancel != nil && cancelTarget(cancel) == ctx && ctxParent(ctx) == ctx0 && eg != nil && !goStartFailed
 //@   loop 0 invariant [C04:one-task-per-item] goDispatched == $i && $i <= len(items)
-//@   ensures [C02:parent-cancellation-surfaces] goParentCancelled ==> result != nil
-//@   ensures [C02:dispatch-failure-surfaces] goStartFailed ==> result != nil
-//@   ensures [C02:task-failure-surfaces] goWaitFailed ==> result != nil
-//@   ensures [C02,C04:every-item-dispatched] result == nil ==> goDispatched == len(items)
+//@   ensures [C01,C02:parent-cancellation-surfaces] goParentCancelled ==> result != nil
+//@   ensures [C01,C02:dispatch-failure-surfaces] goStartFailed ==> result != nil
+//@   ensures [C01,C02:task-failure-surfaces] goWaitFailed ==> result != nil
+//@   ensures [C01,C02,C04:every-item-dispatched] result == nil ==> goDispatched == len(items)
 //@
 //@ func Go$1$1
 //@   requires [wf] lr == nil || lr.limiter != nil
